@@ -85,23 +85,23 @@ const (
 )
 
 type EngineB struct {
-	p        *Program
-	entry    *ssa.Function
-	pts      map[ssa.Value]locset
-	contents map[Loc]locset
-	rets     map[*ssa.Function][]locset
-	objs     map[string]*Obj
-	nobj     int
-	reach    []*ssa.Function
-	inReach  map[*ssa.Function]bool
-	writes   map[string]*writeEvent
-	escapes  map[string]string // instr key -> description (Input passed to unknown code)
-	globalsRead map[string]ssa.Instruction
+	p                               *Program
+	entry                           *ssa.Function
+	pts                             map[ssa.Value]locset
+	contents                        map[Loc]locset
+	rets                            map[*ssa.Function][]locset
+	objs                            map[string]*Obj
+	nobj                            int
+	reach                           []*ssa.Function
+	inReach                         map[*ssa.Function]bool
+	writes                          map[string]*writeEvent
+	escapes                         map[string]string // instr key -> description (Input passed to unknown code)
+	globalsRead                     map[string]ssa.Instruction
 	input, callerBuf, unknown, user *Obj
-	assumptions map[string]bool
-	changed  bool
-	fvals    []*ssa.Function
-	methodsByName map[string][]*ssa.Function
+	assumptions                     map[string]bool
+	changed                         bool
+	fvals                           []*ssa.Function
+	methodsByName                   map[string][]*ssa.Function
 }
 
 func NewEngineB(p *Program, entry *ssa.Function, roles map[int]paramRole) *EngineB {
@@ -772,7 +772,7 @@ var extWrites = map[string][]int{
 	"io.ReadFull": {1}, "io.ReadAtLeast": {1},
 	"encoding/json.Unmarshal": {1}, "go.mongodb.org/mongo-driver/bson.Unmarshal": {1},
 	"encoding/hex.Decode": {0},
-	"fmt.Fprintf": {0}, "fmt.Fprint": {0}, "fmt.Fprintln": {0},
+	"fmt.Fprintf":         {0}, "fmt.Fprint": {0}, "fmt.Fprintln": {0},
 	"(*bytes.Buffer).Write": {0}, "(*bytes.Buffer).WriteByte": {0}, "(*bytes.Buffer).WriteString": {0}, "(*bytes.Buffer).Reset": {0}, "(*bytes.Buffer).Grow": {0},
 	"(encoding/binary.littleEndian).PutUint32": {1}, "(encoding/binary.bigEndian).PutUint32": {1},
 	"(encoding/binary.littleEndian).PutUint64": {1}, "(encoding/binary.bigEndian).PutUint64": {1},
